@@ -55,6 +55,11 @@ def mask : T → Nat
   | .connect | .disconnect | .ack _ | .nak _ => 0xFF
   | _ => 0xFC
 
+/-- `tpci.control` class attribute -/
+def T.isControl : T → Bool
+  | .connect | .disconnect | .ack _ | .nak _ => true
+  | _ => false
+
 /-- PDUs the library can build: sequence numbers are 4 bit. -/
 def Constructible : T → Prop
   | .dataConnected s | .ack s | .nak s => s < 16
